@@ -66,6 +66,13 @@ CHECKS['C20'] = dict(
 	     'The index-expression half is evaluated only as the observations of those histories - for it the check is a generator with a model, not something simulation decides. No fault, schedule or clock exists for this property (fault_kinds_fired is empty by construction).',
 	note='Trusts: Python list semantics and NumPy object-array indexing as reference models; IndexError and TypeError are both accepted for ill-typed/out-of-range indices; tuples, 0-d arrays, remove()/index() not generated.')
 
+CHECKS['C18'] = dict(
+	category='exploration', design_ref='DESIGN.md 4.7',
+	technique='deterministic simulation of operation histories against a database directory: real commands in-process, session abuse, failing commands, KeyboardInterrupt and SIGKILL at the k-th line event; file hashes, SQL statement monitor and commit behaviour checked after every operation',
+	text='Seeded histories of 1-10 (thorough 25) operations - commands, library calls, session abuse on the default session obtained four ways, failing commands, commands interrupted or SIGKILLed at a drawn line event - against a generated database directory; '
+	     'after every operation both files must hash to their initial value, no write-class SQL statement may have reached the database, and commit() must have raised. Sampling of histories, not proof.',
+	note=CLI_NOTE + ' Interrupt/kill points are Python line events in gambit frames (sys.settrace), not instructions inside NumPy/h5py/SQLite calls; killed commands run in a child forked from a zygote that never ran OpenMP.')
+
 NOT_APPLICABLE = {
 	'C01': 'pure function of (k, prefix, sequence bytes, container type, accumulator): no schedule, fault, clock or persistent state can change it; input generation against a second definition is property-based testing, not simulation',
 	'C02': 'pure function of two sorted arrays; nothing a simulator decides (order, fault, time) enters',
